@@ -69,3 +69,10 @@ Print Assumptions C16_create_existing_refused.
     LoadOrStore retry loop (the model takes the drawn id as an input and the
     oracle checks freshness of every observed id); concurrent clients are
     sampled, not proved. *)
+
+(** The codec normalises: decoding any qword list (every qword below 2^64) and encoding the value
+    again gives the same list without its leading zero qwords. *)
+Theorem C16_qwords_normalise :
+  forall qs : list N, Forall (fun w => (w < Q64)%N) qs -> to_qwords (of_qwords qs) = strip0 qs.
+Proof. exact qwords_normalise. Qed.
+Print Assumptions C16_qwords_normalise.
